@@ -45,6 +45,8 @@ type gen struct {
 	rng *rand.Rand
 	s   *hw.Signer
 	seq int
+	// variant selects between the alternatives of a template deterministically
+	variant int
 }
 
 func (g *gen) date() time.Time {
@@ -94,9 +96,9 @@ func (g *gen) bytesBlob(label string, ps []part, extra map[string]any) blob.Ref 
 }
 
 const (
-	expNone    = 0
-	expPast    = 1 // expired in 1990
-	expFuture  = 2 // expires in 2200
+	expNone   = 0
+	expPast   = 1 // expired in 1990
+	expFuture = 2 // expires in 2200
 )
 
 func (g *gen) share(label string, target blob.Ref, transitive bool, exp int) blob.Ref {
@@ -128,9 +130,9 @@ func (g *gen) del(label string, target blob.Ref) blob.Ref {
 }
 
 // build returns the store of the given template, determined by rng.
-func buildWorld(id, template string, rng *rand.Rand) *world {
+func buildWorld(id, template string, variant int, rng *rand.Rand) *world {
 	w := newWorld(id, template)
-	g := &gen{w: w, rng: rng, s: hw.NewSigner(1)}
+	g := &gen{w: w, rng: rng, s: hw.NewSigner(1), variant: variant}
 	w.add(g.s.Pub, "pubkey")
 	switch template {
 	case "files-bytes":
@@ -184,6 +186,8 @@ func (g *gen) filesBytes() {
 		g.share("share-T-chunk", c2, true, expNone)
 	}
 	g.share("share-T-file2", f2, true, exps[g.rng.Intn(2)])
+	// a share of a blob that is not stored
+	g.share("share-T-unknown-target", w.unknown, true, expNone)
 }
 
 // deletions: the same file shared by claims that are live, deleted, deleted-then-undeleted,
@@ -217,13 +221,15 @@ func (g *gen) deletions() {
 	w.features["share-search"] = true
 	pn := w.add(g.s.Permanode("c17-"+w.id), "permanode")
 	w.features["permanode"] = true
-	if g.rng.Intn(2) == 0 {
+	if g.variant%2 == 0 {
 		// a claim whose value names the file (not a link), shared transitively
 		cl := w.add(g.s.Claim(hw.Set, pn, "camliContent", f.String(), g.date()), "claim-camliContent-file")
-		if g.rng.Intn(2) == 0 {
+		if g.variant%4 == 0 {
 			g.share("share-T-claim", cl, true, expNone)
+			w.features["share-T-claim"] = true
 		} else {
 			g.share("share-T-permanode", pn, true, expNone)
+			w.features["share-T-permanode"] = true
 		}
 	} else {
 		// the deleted share is deleted twice and one of the deletes is undone: still deleted
